@@ -150,6 +150,7 @@ func (db *DB) collectGarbage() (collectedCount uint64, done bool, err error) {
 
 	currentCollectedCount := uint64(0)
 	recycledItems := make([]shed.Item, 0)
+	skippedDirty := false
 
 	// without batchMu lock, call chunkinfo to remove chunks
 	for _, item := range candidates {
@@ -216,6 +217,7 @@ func (db *DB) collectGarbage() (collectedCount uint64, done bool, err error) {
 		})
 		if err != nil {
 			if errors.Is(err, dirtyGarbageNoHandle) {
+				skippedDirty = true
 				continue
 			}
 			if errors.Is(err, storage.ErrNotFound) {
@@ -274,8 +276,10 @@ func (db *DB) collectGarbage() (collectedCount uint64, done bool, err error) {
 		return 0, false, err
 	}
 
-	// another run is only useful if this one was able to evict something
-	if currentSize > target && len(recycledItems) > 0 {
+	// another run is only useful if this one was able to evict something, or
+	// left a candidate out because it was accessed during the run (it is not
+	// dirty any more when the next run starts)
+	if currentSize > target && (len(recycledItems) > 0 || skippedDirty) {
 		done = false
 	}
 
